@@ -127,6 +127,14 @@ def run_impl(case, mods, noise=None):
 
     def cb(x, o):
         obj.log.append(('cb', [float(t) for t in x]))
+    alphas = []
+    orig_k = TR.kouri_exact_line_search
+
+    def logged_k(*a, **k):
+        r = orig_k(*a, **k)
+        alphas.append(float(r))
+        return r
+    TR.kouri_exact_line_search = logged_k
     TR.solve_spg_subproblem = logged
     old = signal.signal(signal.SIGALRM, _alarm)
     signal.alarm(60)
@@ -144,7 +152,9 @@ def run_impl(case, mods, noise=None):
         signal.alarm(0)
         signal.signal(signal.SIGALRM, old)
         TR.solve_spg_subproblem = orig
-    return dict(x=x, flag=flag, log=obj.log, props=props, obj=obj, settings=st, err=err, bounds=bounds)
+        TR.kouri_exact_line_search = orig_k
+    return dict(x=x, flag=flag, log=obj.log, props=props, obj=obj, settings=st, err=err, bounds=bounds,
+                min_alpha=min([a for a in alphas if a == a] + [0.0]))
 
 
 def discrete(o):
@@ -248,7 +258,7 @@ def correspondence(ctx, model_ok):
             worst = max(worst, excess(p, c['bounds']))
         for tag, b in concl(c, o, mods):
             ctx.fail('conclusion', 'bound_constrained_trust_region_minimize: ' + b,
-                     case=dict({k: v for k, v in c.items()}, tag=tag, impl=dict(x=o['x'], flag=o['flag'], log=o['log'], err=o['err'])), concrete=True)
+                     case=dict({k: v for k, v in c.items()}, tag=tag, impl=dict(x=o['x'], flag=o['flag'], log=o['log'], err=o['err'], min_alpha=o['min_alpha'])), concrete=True)
     # ---- direct calls of project / project_onto_tr, brentq's answer logged
     pcases = gen_projection_cases(ctx, ctx.n(150, 1500))
     pouts = []
@@ -380,16 +390,29 @@ def search(ctx, reasons):
 
 def finding_fails(ctx, f):
     mods = _mods()
+    if f.get('id') == 'F12':
+        c = dict(f['witness']['case'])
+        c['bounds'] = [(lo if lo is not None else -INF, hi if hi is not None else INF) for lo, hi in c['bounds']]
+        o = run_impl(c, mods)
+        return o['min_alpha'] < 0 and any(t == 'infeasible' for t, _ in concl(c, o, mods))
     c = f1p_case()
     o = run_impl(c, mods)
     return [t for t, _ in concl(c, o, mods)] == ['uphill-converged-exit']
 
 
 def matches_finding(fl, f):
-    """F1' exactly: the only complaint is an increase at the final ConvergedAt event of a run that returned flag True"""
-    if f.get('id') != "F1'" or fl.get('kind') != 'conclusion':
+    """F1' exactly: the only complaint is an increase at the final ConvergedAt event of a run that returned flag True.
+    F12 exactly: monotone (Kouri) line search, a NEGATIVE step length was returned by kouri_exact_line_search in that run, and the
+    complaint is an infeasible reported iterate (or the descent/last-iterate consequences are NOT covered: those stay violations)."""
+    if fl.get('kind') != 'conclusion':
         return False
-    return (fl.get('case') or {}).get('tag') == 'uphill-converged-exit'
+    c = fl.get('case') or {}
+    if f.get('id') == "F1'":
+        return c.get('tag') == 'uphill-converged-exit'
+    if f.get('id') == 'F12':
+        return (c.get('tag') == 'infeasible' and c.get('st', {}).get('spg_use_nonmonotone') is False
+                and (c.get('impl') or {}).get('min_alpha', 0.0) < 0)
+    return False
 
 
 def replay(ctx, path):
